@@ -52,6 +52,12 @@ func Harness_C13_direct_children() {
 	t := VerifComponent("T", 1, "ab")
 	vm.Assume(t != b)
 	p.VerifInsert(&models.Header{Name: dir + "/" + t, Typeflag: tar.TypeReg, Deleted: 1, Paxrecords: "{}"})
+	// more siblings so that a limited listing has something to cut (up to 5 live children per directory)
+	extra := vm.Int("extraChildren", 0, 3)
+	for i := 0; i < extra; i++ {
+		p.VerifInsert(&models.Header{Name: dir + "/x" + string(rune('0'+i)), Typeflag: tar.TypeReg, Size: int64(i), Paxrecords: "{}"})
+		p.VerifInsert(&models.Header{Name: "/y" + string(rune('0'+i)), Typeflag: tar.TypeDir, Paxrecords: "{}"})
+	}
 
 	parent := "/"
 	switch vm.Choice("parent", 3) {
@@ -60,7 +66,7 @@ func Harness_C13_direct_children() {
 	case 2:
 		parent = dir + "/" + b
 	}
-	n := vm.Int("n", -1, 3)
+	n := vm.Int("n", -1, 4)
 	got, err := p.GetHeaderDirectChildren(context.Background(), parent, n)
 	vm.Assert("C13.list_no_error", err == nil)
 
